@@ -53,8 +53,8 @@ reg("C07", "fault_enumeration",
     "file operation), F3 (random multi-fault sequences over several attempts), F3m (1..6 certificates sharing account and endpoint, any subset "
     "failing permanently). Oracles: no panic; every attempt ends; one post-operation batch per attempt with a faithful report; >= 1 s between "
     "a failed attempt and the next one; healthy certificates are issued. Non-trivial = a run in which at least one attempt failed.",
-    quick=[("F2", 100000), ("F2f", 100000), ("F2h", 100000), ("F2s", 100000), ("F3", 800), ("F3m", 500)],
-    thorough=[("F2", 100000), ("F2b", 100000), ("F2f", 100000), ("F2h", 100000), ("F2s", 100000), ("F3", 60000), ("F3m", 20000)],
+    quick=[("F2", 100000), ("F2f", 100000), ("F2h", 100000), ("F2s", 100000), ("F3", 800), ("F3m", 500), ("F4u", 12)],
+    thorough=[("F2", 100000), ("F2b", 100000), ("F2f", 100000), ("F2h", 100000), ("F2s", 100000), ("F3", 60000), ("F3m", 20000), ("F4u", 12)],
     exhaustive_families=["F2", "F2b", "F2f", "F2h", "F2s"])
 
 reg("C02", "exploration",
